@@ -37,11 +37,19 @@ def gen(rng, tier):
     vars_ = common.VARS[:nv]
     cfg = sg.GenCfg(vars=vars_, ops=common.PAST_OPS, max_depth=rng.randint(2, 6 if big else 5), max_bound=rng.choice([2, 4, 6] + ([8, 10] if big else [])),
                     p_reuse=rng.choice([0.0, 0.33, 0.33, 0.5]), p_near=rng.choice([0.0, 0.0, 0.5]))
+    long_windows = rng.random() < 0.03
+    if long_windows:
+        # second-long bounds at millisecond sampling: windows of 60-130 samples on a log of 70-200 samples
+        cfg.max_bound = rng.choice([64, 70, 100, 130])
+        cfg.hi_min = 60
+        cfg.max_depth = min(cfg.max_depth, 3)
     ast = sg.gen_formula(rng, cfg)
     if rng.random() < 0.2:
         ast = sg.add_operator_twin(rng, ast, set(common.PAST_OPS))      # the same operands under another operator (log/pow, once/historically ...)
     text = 'out = ' + sg.to_text(ast, sg.Spelling(rng)) + ';'
     n = rng.choice([1, 2, 3, 4, 5, 6, 8, 10, 12, 14] + ([18, 24] if big else []))
+    if long_windows:
+        n = rng.randint(70, 200)
     data = world.gen_trace(rng, vars_, n, p_bigint=0.06)
     times, fired = world.faulty_clock(rng, n, kinds=[k for k in ('jitter_in', 'jitter_out', 'offset', 'float_stamps')
                                                       if rng.random() < 0.4])
